@@ -77,11 +77,10 @@ impl Paths {
     { unimplemented!() }
 }
 
-/// R12: `$a == $b` for `$a, $b: &AccountId` — the derived `PartialEq` (crates/core/src/account.rs:10): the 20 bytes
-#[verifier::external_body]
-pub fn account_id_eq(a: &AccountId, b: &AccountId) -> (r: bool)
-    ensures r == (a.0@ == b.0@),
-{ unimplemented!() }
+/// the derived `PartialEq` of AccountId (crates/core/src/account.rs:10): the 20 bytes
+impl EqStd for &AccountId { open spec fn eq_std_spec(self, other: &AccountId) -> bool { self.0@ == other.0@ } }
+#[verifier::external]
+impl PartialEq for AccountId { fn eq(&self, other: &Self) -> bool { self.0 == other.0 } }
 
 impl Summary {
     /// crates/vault/src/vault.rs `Summary::name`
